@@ -117,11 +117,19 @@ pub fn judge_compile_failures(
 /// Still failing in the stored way => KNOWN-FINDING line; failing in another way => violation; compiling => nothing.
 /// An open finding whose key is not in the table makes the run inconclusive. Returns false after a violation.
 pub fn probe_open_findings(ctx: &mut crate::ev::Ctx, property: &str, table: &[(&str, String, String, &[&str])]) -> bool {
+    probe_open_findings_with(ctx, property, false, table, &[])
+}
+
+/// `feature_unimock`: the cargo feature setting the probes are built with; `handled_elsewhere`: keys the calling check deals with itself
+pub fn probe_open_findings_with(ctx: &mut crate::ev::Ctx, property: &str, feature_unimock: bool, table: &[(&str, String, String, &[&str])], handled_elsewhere: &[&str]) -> bool {
     for f in crate::ev::open_findings(property) {
+        if handled_elsewhere.contains(&f.key.as_str()) {
+            continue;
+        }
         let Some((_, real, twin, expect)) = table.iter().find(|row| row.0 == f.key) else {
             crate::ev::inconclusive(&format!("known_findings.txt lists an open {property} finding with an unknown key: {}", f.key));
         };
-        let mut b = crate::e2::Batch::new(&format!("{}-known", property.to_lowercase()), crate::e2::Opts { feature_unimock: false, members: 2, check_only: true, ..Default::default() });
+        let mut b = crate::e2::Batch::new(&format!("{}-known", property.to_lowercase()), crate::e2::Opts { feature_unimock, members: 2, check_only: true, ..Default::default() });
         b.add("c00000", real.clone());
         b.add("t00000", twin.clone());
         let out = b.build_and_run();
